@@ -384,7 +384,7 @@ class Interp:
 
     # ------------------------------------------------------------------ symbolic-ness
     def deep_symbolic(self, v, depth=0, memo=None):
-        if isinstance(v, (Sym, FD, SymArray, WhereResult, SymStr, GList, SymDict)):
+        if isinstance(v, (Sym, FD, SymArray, WhereResult, SymStr, GList, SymDict, GItem)):
             return True
         if v is None or isinstance(v, (str, int, float, bool, types.ModuleType, types.FunctionType, type)):
             return False
@@ -425,8 +425,13 @@ class Interp:
             return self.truth(self.binop(ast.Gt(), n, 0))
         if isinstance(v, SymArray):
             raise PyRaise(ValueError("The truth value of an array with more than one element is ambiguous"))
+        if has_gitems(v):
+            v = as_glist(v)
         if isinstance(v, GList):
-            gs = [zbool(g) for g, _ in v.items]
+            gs = [g for g, _ in v.items]
+            if any(g is True for g in gs):
+                return True
+            gs = [zbool(g) for g in gs]
             if not gs:
                 return False
             return z3.simplify(z3.Or(*gs)) if len(gs) > 1 else gs[0]
@@ -604,9 +609,8 @@ class Interp:
 
     def str_method(self, s, name, args, kwargs):
         if name in ("upper", "lower", "swapcase", "casefold") and not args:
-            return mk_str([(p_ if False else getattr(p, name)()) if isinstance(p, str)
-                           else mk_fd([(g, getattr(v, name)()) for g, v in p.cases]) if isinstance(p, FD) else p
-                           for p in s.pieces for p_ in (0,)])
+            return mk_str([getattr(p, name)() if isinstance(p, str) else mk_fd([(g, getattr(v, name)()) for g, v in p.cases])
+                           for p in s.pieces])
         if name == "count" and len(args) == 1 and isinstance(args[0], str) and len(args[0]) == 1:
             tot = 0
             for c in self.chars(s):
@@ -639,7 +643,7 @@ class Interp:
                     break
             return mk_str(cs[lo:hi])
         if name == "join":
-            parts = list(args[0].items if isinstance(args[0], SymArray) else args[0])
+            parts = self.iterate(args[0])
             if s.is_concrete() if isinstance(s, SymStr) else True:
                 sep = s.concrete() if isinstance(s, SymStr) else s
                 out = []
@@ -975,6 +979,8 @@ class Interp:
     def contains(self, container, x):
         if isinstance(container, FD):
             return mk_fd_apply(self, lambda c: self.contains(c, x), container)
+        if has_gitems(container):
+            container = as_glist(container)
         if isinstance(container, GList):
             acc = False
             for g, it in container.items:
@@ -1077,11 +1083,19 @@ class Interp:
         if isinstance(a, list) and isinstance(b, list):
             if len(a) != len(b):
                 # guarded append: one list extends the other
+                def gi(gg, x):
+                    if isinstance(x, GItem):
+                        return GItem(z3.And(gg, zbool(x.g)), x.v)
+                    return GItem(gg, x)
                 if len(a) > len(b) and all(x is y for x, y in zip(a, b)):
-                    return GList([(True, x) for x in b] + [(g, x) for x in a[len(b):]])
+                    return list(b) + [gi(g, x) for x in a[len(b):]]
                 if len(b) > len(a) and all(x is y for x, y in zip(a, b)):
-                    return GList([(True, x) for x in a] + [(z3.Not(g), x) for x in b[len(a):]])
+                    return list(a) + [gi(z3.Not(g), x) for x in b[len(a):]]
                 raise MergeAbort("list length")
+            if has_gitems(a) or has_gitems(b):
+                if all(x is y for x, y in zip(a, b)):
+                    return a
+                raise MergeAbort("guarded list contents")
             return [self.merge(g, x, y) for x, y in zip(a, b)]
         if isinstance(a, tuple) and isinstance(b, tuple) and len(a) == len(b):
             return tuple(self.merge(g, x, y) for x, y in zip(a, b))
@@ -1543,6 +1557,8 @@ class Interp:
             return list(it.items)
         if isinstance(it, SymStr):
             return self.chars(it)
+        if has_gitems(it):
+            it = as_glist(it)
         if isinstance(it, GList):
             out = []
             for g, v in it.items:
@@ -1878,6 +1894,8 @@ class Interp:
                 if not self.branch(t):
                     raise PyRaise(KeyError(k))
             return v
+        if has_gitems(c):
+            c = as_glist(c)
         if isinstance(c, GList):
             return self.glist_index(c, k)
         if isinstance(c, FD):
